@@ -467,14 +467,33 @@ class ShapeUnknown(Exception):
     pass
 
 
+def _is_shape_finding(o):
+    """Findings that say "the code does not have the shape this rule reads" rather than "the code is wrong"."""
+    return (not o.ok) and (o.rule.endswith("-floor") or o.rule == "anchor-missing" or "anchor" in o.key or o.key.endswith("-shape")
+                           or o.key.endswith(":local") or o.key.endswith(":shape"))
+
+
 def guarded_soft(col, rule_fn, *args):
-    """Run a narrow, shape-bound rule: a missing anchor / unknown shape is recorded as `not applied`, not as a
-    violation (the broad rules of the same property still run and still fail closed)."""
+    """Run a *narrow*, shape-bound rule (one written for a particular spelling of a particular function).  If the
+    rule reports that the code no longer has the shape it reads (missing anchor, instance count below its floor,
+    `...-shape`), nothing it says about that configuration is used: the run records `not applied` instead of a
+    violation.  The broad rules of the same property still run and still fail closed."""
+    sub = Collector()
+    sub.config = col.config
+    why = None
     try:
-        rule_fn(col, *args)
+        rule_fn(sub, *args)
     except (AnchorMissing, ShapeUnknown) as e:
-        col.note("%s not applied in %s: %s" % (rule_fn.__name__, col.config, e))
-        col.assumed("not-applied", "%s" % rule_fn.__name__, "shape-bound rule not applied: %s" % e)
+        why = str(e)
+    shape = [o for o in sub.obs if _is_shape_finding(o)]
+    if why is None and shape:
+        why = "; ".join("%s:%s" % (o.rule, o.key) for o in shape[:3])
+    if why is not None:
+        col.note("%s not applied in %s: %s" % (rule_fn.__name__, col.config, why))
+        col.assumed("not-applied", "%s" % rule_fn.__name__, "shape-bound rule not applied (the code is spelt differently from what it reads): %s" % why)
+        return
+    col.obs.extend(sub.obs)
+    col.notes.extend(sub.notes)
 
 
 def find_fn_suffix(facts, crate, suffix, required=True):
